@@ -267,14 +267,16 @@ def run(ctx):
     run_c06(sub)
     n_imp = 0
     for o in sub.rep.obligations:
-        if o['rule'] != 'R5':
+        if o['rule'] not in ('R5', 'R2', 'R3'):
+            # (R2/R3: "not accepted" means the state goes back to what it was: a rejected proposal that is not undone, or is
+            # undone to something other than the pre-move value, stays in the state although the rule turned it down)
             continue
         n_imp += 1
         if o['ok']:
             rep.ok('R6', 'C06:' + o['rule'] + '/' + o['instance'], o['construct'], o['why'])
         else:
             rep.fail('R6', 'C06:' + o['rule'] + '/' + o['instance'], o['construct'], o['why'], o['reason'])
-    rep.floor('R6', 'imported score-bookkeeping obligations (C06.R5)', n_imp, 3)
+    rep.floor('R6', 'imported undo / score-bookkeeping obligations (C06.R2, R3, R5)', n_imp, 20)
     rep.analysed |= sub.rep.analysed
     # argument roles
     old_l = oa.arg_local(oa.dec_args['old'])
